@@ -4,13 +4,14 @@
 //! (3) fresh processes (std's RandomState is seeded per process); (4) thorough: the real proc-macro in
 //! separate rustc processes (`-Zunpretty=expanded`).
 use super::core::*;
+use rayon::prelude::*;
 use super::dm::{self, Derive, Outcome};
 use super::progprop::Dice;
 use proptest::strategy::ValueTree;
 use serde_json::{json, Value};
 use std::process::{Command, Stdio};
 
-pub const RULE: &str = "derive inputs biased to expansions that iterate hashed collections (TryInto enums with 3..8 variants over 3..6 distinct field-type tuples and all reference kinds; FromStr enums with 3..10 variants incl. case-collision groups; Mul-like/MulAssign-like structs with 3..6 distinct field types; Error enums with several generic sources; AsRef/Into type lists; the same over generic / compound / referenced field types, named and unit variants, per-variant TryInto attributes, attributed / wrapped Error sources, raw and non-ASCII FromStr names) plus the general shape x derive generator, items carrying the attributes of their derive (documented forms, mutations, random bodies), fmt derives (all eight + Debug) whose attributes bound 2..4 distinct generic field types incl. explicit bound(..) attributes, From enums with explicit variants, and the documented attribute forms of every derive (blanket `forward` forms) repeated many times per batch; oracle: identical token text when expanded twice, at every place the same input occurs in one pass, in two different orders of preceding expansions, and in K fresh processes (per-process hash seeds); thorough adds the real proc-macro in separate rustc processes. Non-trivial = the input has >= 3 keys in a collection the expander hashes; distinct by (derive, item)";
+pub const RULE: &str = "derive inputs biased to expansions that iterate hashed collections (TryInto enums with 3..8 variants over 3..6 distinct field-type tuples and all reference kinds; FromStr enums with 3..10 variants incl. case-collision groups; Mul-like/MulAssign-like structs with 3..6 distinct field types; Error enums with several generic sources; AsRef/Into type lists; the same over generic / compound / referenced field types, named and unit variants, per-variant TryInto attributes, attributed / wrapped Error sources, raw and non-ASCII FromStr names) plus the general shape x derive generator, items carrying the attributes of their derive (documented forms, mutations, random bodies), fmt derives (all eight + Debug) whose attributes bound 2..4 distinct generic field types incl. explicit bound(..) attributes, From enums with explicit variants, and the documented attribute forms of every derive (blanket `forward` forms) repeated many times per batch; oracle: identical token text when expanded twice, at every place the same input occurs in one pass, in two different orders of preceding expansions, in K fresh processes (per-process hash seeds), and — for a sample of multi-field items, one child process per placement — at controlled source positions where the item's spans straddle 10^2..10^6 bytes of preceding source (position independence); thorough adds the real proc-macro in separate rustc processes. Non-trivial = the input has >= 3 keys in a collection the expander hashes; distinct by (derive, item)";
 
 #[derive(Clone, Debug)]
 pub struct Case {
@@ -38,7 +39,9 @@ const CLASS_FLOORS: [(&str, f64); 10] = [
 const TYS: [&str; 8] = ["i32", "u8", "String", "bool", "f64", "char", "Vec<u8>", "T"];
 
 /// richer field types for the hashed type sets (C19-2/3/4): references, generic containers, tuples, arrays
-const RICH_TYS: [&str; 12] = ["i32", "T", "Vec<T>", "&'static str", "(i32, T)", "[u8; 2]", "Option<T>", "Box<T>", "&'static T", "String", "u8", "std::collections::BTreeMap<u8, T>"];
+const RICH_TYS: [&str; 16] = ["i32", "T", "Vec<T>", "&'static str", "(i32, T)", "[u8; 2]", "Option<T>", "Box<T>", "&'static T", "String", "u8", "std::collections::BTreeMap<u8, T>",
+    // distinct types that begin with the same identifier (anything keyed on a rendering of the type that embeds spans compares positions here)
+    "Vec<u8>", "Vec<i64>", "Option<i64>", "Box<u8>"];
 
 fn gen_case(d: &mut Dice) -> Case {
     match d.weighted(&[3, 2, 3, 2, 2, 2, 3, 3, 4, 2, 3, 2, 2, 1, 3]) {
@@ -584,6 +587,40 @@ pub fn run(ctx: &Ctx) -> Report {
     }
     rep.evidence.set("fresh_processes_compared", json!(fresh_ok));
     rep.evidence.add("evaluations_across_processes", (fresh_ok * batch.len()) as u64);
+    // (3b) position independence: a sample of multi-field items, each in a child process of its own, expanded where its
+    // spans straddle 10^2 .. 10^6 bytes of preceding source
+    {
+        let want = ctx.tier.pick(80usize, 600);
+        let mut picked: Vec<usize> = (0..batch.len())
+            .filter(|i| !first[*i].starts_with('<') && batch[*i].item.matches(',').count() >= 1)
+            .filter(|i| matches!(class_of(&batch[*i].derive), "MulLike" | "Error" | "TryInto") || batch[*i].class.starts_with("fmt-attribute") || i % 7 == 0)
+            .collect();
+        let step = (picked.len() / want.max(1)).max(1);
+        picked = picked.into_iter().step_by(step).take(want).collect();
+        let exe = std::env::current_exe().unwrap();
+        let jobs: Vec<(usize, usize)> = picked.iter().flat_map(|i| (1..=5usize).map(move |n| (*i, n))).collect();
+        let results: Vec<(usize, Option<Vec<String>>)> = jobs
+            .par_iter()
+            .map(|(i, n)| {
+                let o = Command::new(&exe).args(["worker", "c19-span", &batch[*i].derive, &batch[*i].item, &n.to_string(), "6"]).output().ok();
+                (*i, o.filter(|o| o.status.success()).map(|o| String::from_utf8_lossy(&o.stdout).split_whitespace().map(|s| s.to_string()).collect()))
+            })
+            .collect();
+        let mut compared = 0u64;
+        let mut n = 0;
+        for (i, hs) in results {
+            let Some(hs) = hs else { continue };
+            compared += hs.len() as u64;
+            rep.evidence.label("span_position_case");
+            if hs.iter().any(|h| *h != hs[0]) {
+                n += 1;
+                if n <= 3 {
+                    report(i, "the expansion depends on the byte position of the item in the source (same item, same process, different amounts of preceding source)", &first[i], &format!("<hashes {hs:?}>"), &mut rep);
+                }
+            }
+        }
+        rep.evidence.set("expansions_at_controlled_source_positions", json!(compared));
+    }
     // (4) thorough: real proc-macro, separate rustc processes
     if ctx.tier == Tier::Thorough {
         match real_compiler_runs(ctx, &batch, &first) {
@@ -722,8 +759,65 @@ pub fn replay(ctx: &Ctx, case: &Value) -> Report {
             }
         }
     }
+    // position independence (the placements of the span stage)
+    for n in 1..=5usize {
+        if let Ok(o) = Command::new(&exe).args(["worker", "c19-span", &c.derive, &c.item, &n.to_string(), "6"]).output() {
+            let hs: Vec<String> = String::from_utf8_lossy(&o.stdout).split_whitespace().map(|s| s.to_string()).collect();
+            if hs.iter().any(|h| *h != hs[0]) {
+                rep.violations.push(Violation {
+                    sig: None,
+                    summary: format!("the expansion depends on the byte position of the item in the source: derive {} on `{}`", c.derive, c.item),
+                    case: case.clone(),
+                    expected: a.chars().take(1500).collect(),
+                    observed: format!("<hashes {hs:?}>"),
+                });
+                break;
+            }
+        }
+    }
     let _ = ctx;
     rep
+}
+
+/// Current end of proc_macro2's (fallback) source map: the byte offset the next parsed string starts at.
+fn source_map_offset() -> usize {
+    // (`Span::byte_range()` is relative to the parsed string; the global position only shows in the Debug rendering
+    // `#0 bytes(lo..hi)`, which is also what a `{:?}`-based ordering inside an expander would see)
+    let ts: proc_macro2::TokenStream = "x".parse().unwrap();
+    let dbg = ts.into_iter().next().map(|t| format!("{:?}", t.span())).unwrap_or_default();
+    dbg.split("bytes(").nth(1).and_then(|r| r.split("..").next()).and_then(|n| n.parse().ok()).unwrap_or(usize::MAX)
+}
+
+/// `dmv worker c19-span <derive> <item>`: expands the item at the current position and then at positions where the
+/// item's own spans straddle 10^2 .. 10^6 bytes (the places where the decimal renderings of two byte offsets inside the
+/// item differ in length). Prints one hash per expansion: all must be equal — the expansion may not depend on where in the
+/// source the item stands.
+pub fn worker_span(args: &[String]) -> i32 {
+    let c = Case { derive: args.first().cloned().unwrap_or_default(), item: args.get(1).cloned().unwrap_or_default(), hashed_keys: 0, class: "replay" };
+    let mut out = vec![fnv(&expand_text(&c))];
+    // where inside the item the boundary falls: <num>/<den> of its length (one placement per boundary and process)
+    let num: usize = args.get(2).and_then(|s| s.parse().ok()).unwrap_or(1);
+    let den: usize = args.get(3).and_then(|s| s.parse().ok()).unwrap_or(2).max(1);
+    for k in 2..=6u32 {
+        let boundary = 10usize.pow(k);
+        {
+            let target = boundary.saturating_sub(c.item.len() * num / den);
+            for _ in 0..4 {
+                let o = source_map_offset();
+                if o == usize::MAX || o + 8 >= target {
+                    break;
+                }
+                let n = target - o - 6;
+                let filler = format!("\"{}\"", "a".repeat(n.saturating_sub(2)));
+                let _: Result<proc_macro2::TokenStream, _> = filler.parse();
+            }
+            if source_map_offset() < boundary {
+                out.push(fnv(&expand_text(&c)));
+            }
+        }
+    }
+    println!("{}", out.iter().map(|h| format!("{h:016x}")).collect::<Vec<_>>().join(" "));
+    0
 }
 
 pub fn worker_one(args: &[String]) -> i32 {
